@@ -66,3 +66,7 @@ mod tests {
         }
     }
 }
+
+#[cfg(kani)]
+#[path = "/verif/harness/crypto_hasher.rs"]
+pub(crate) mod verif_harness;
